@@ -49,14 +49,14 @@ Eval(t, env) ==
     [] t.k = "sub"  -> QSub(Eval(t.a[1], env), Eval(t.b[1], env))
     [] t.k = "mul"  -> QMul(Eval(t.a[1], env), Eval(t.b[1], env))
     [] t.k = "div"  -> QDiv(Eval(t.a[1], env), Eval(t.b[1], env))
-    [] t.k = "pow"  -> QPow(Eval(t.a[1], env), t.b[1].c)
+    [] t.k = "pow"  -> QPow(Eval(t.a[1], env), Eval(t.b[1], env)[1])        \* exponent: a tree with a small natural value
     [] t.k = "neg"  -> QSub(Q(0), Eval(t.a[1], env))
 RECURSIVE Evaluable(_, _)
 Evaluable(t, env) ==        \* no calls / past leaves, no division by zero, small exponents
   CASE t.k \in {"var", "lit"} -> TRUE
     [] t.k \in {"add", "sub", "mul"} -> Evaluable(t.a[1], env) /\ Evaluable(t.b[1], env)
     [] t.k = "div" -> Evaluable(t.a[1], env) /\ Evaluable(t.b[1], env) /\ Eval(t.b[1], env)[1] # 0
-    [] t.k = "pow" -> Evaluable(t.a[1], env) /\ t.b[1].k = "lit" /\ t.b[1].c \in 0..3
+    [] t.k = "pow" -> Evaluable(t.a[1], env) /\ Evaluable(t.b[1], env) /\ Eval(t.b[1], env)[2] = 1 /\ Eval(t.b[1], env)[1] \in 0..3
     [] t.k = "neg" -> Evaluable(t.a[1], env)
     [] OTHER -> FALSE
 
@@ -126,7 +126,7 @@ Degree(t, v) == CASE t.k = "var" -> IF t.n = v THEN 1 ELSE 0
                   [] t.k = "lit" -> 0
                   [] t.k \in {"add", "sub"} -> IF Degree(t.a[1], v) > Degree(t.b[1], v) THEN Degree(t.a[1], v) ELSE Degree(t.b[1], v)
                   [] t.k = "mul" -> Degree(t.a[1], v) + Degree(t.b[1], v)
-                  [] t.k = "pow" -> Degree(t.a[1], v) * t.b[1].c
+                  [] t.k = "pow" -> IF t.b[1].k = "lit" THEN Degree(t.a[1], v) * t.b[1].c ELSE 99
                   [] t.k = "neg" -> Degree(t.a[1], v)
                   [] OTHER -> 99
 DiffQuotient(t, v, env) ==
